@@ -56,6 +56,10 @@ class C06(GProp):
 
     def oracle(self, ct, it):
         fails = self.oracle_with(ct, it, True)
+        if peg.reference.lost_met and not fails:
+            # the reference follows the code where a temporary filter change meets tokens skipped eagerly at a parse start
+            # (they stay lost when the wider filter comes back): that is the recorded C05 finding, reported here as such
+            return [((1,), '[parse-start-filter-change] a token skipped eagerly at a parse start stays lost although a later filter (the restored one, or the one filter_with / unfiltered installs) keeps it')]
         if fails:
             c = pfields(ct)
             gs = sexp.dump(c['g'])
@@ -71,6 +75,8 @@ class C06(GProp):
         what = str(f.get('detail', {}).get('what', ''))
         if f.get('kind') == 'oracle' and what.startswith('[sub-after-lookahead]'):
             return self.id + '-sub-after-lookahead-filter-change'
+        if f.get('kind') == 'oracle' and what.startswith('[parse-start-filter-change]'):
+            return self.id + '-filter-change-at-parse-start'
         return None
 
     def oracle_with(self, ct, it, sub_skip):
